@@ -34,6 +34,9 @@ type Session struct {
 	Class  string   `json:"class"`
 	Always bool     `json:"always"`
 	CRLF   bool     `json:"crlf"` // the text uses \r\n line ends
+	// Route: how the text reaches the engine: "" one compile; incr: the faulty rule alone is compiled first (at line 1)
+	// and the text then arrives as an incremental update; pool / poolupd / poolincr: the same through a pool
+	Route string `json:"route"`
 }
 
 type LObj struct {
@@ -53,30 +56,74 @@ func runLines(s *Session) []N {
 		nl = "\r\n"
 	}
 	text := strings.Join(s.Lines, nl) + nl
-	dc := context.NewDataContext()
-	dc.Add("obj", &LObj{In: &LInner{}})
-	dc.Add("arr", []int64{1, 2, 3})
-	dc.Add("m", map[string]int64{"k": 1})
-	dc.Add("ev", func(v interface{}) {})
-	dc.Add("boom", func() int64 { panic("boom") })
-	dc.Add("uz", uint64(0))
-	dc.Add("iz", int64(0))
-	dc.Add("fz", float64(0))
-	rb := builder.NewRuleBuilder(dc)
-	if err := rb.BuildRuleFromString(text); err != nil {
-		return []N{{"ev": "session", "id": s.ID}, {"ev": "lskip", "why": trunc(err.Error(), 160), "class": s.Class}}
+	apis := map[string]interface{}{
+		"obj": &LObj{In: &LInner{}}, "arr": []int64{1, 2, 3}, "m": map[string]int64{"k": 1}, "ev": func(v interface{}) {},
+		"boom": func() int64 { panic("boom") }, "uz": uint64(0), "iz": int64(0), "fz": float64(0),
 	}
-	eng := engine.NewGengine()
+	dc := context.NewDataContext()
+	for k, v := range apis {
+		dc.Add(k, v)
+	}
+	// the faulty rule on its own, from its `rule` line to its `end` line: the earlier text of the incremental routes
+	first := ""
+	if s.Route != "" && s.Route != "pool" {
+		lo, hi := s.Fault-1, s.Fault-1
+		for lo > 0 && !strings.HasPrefix(strings.TrimSpace(s.Lines[lo]), "rule ") {
+			lo--
+		}
+		for hi < len(s.Lines)-1 && strings.TrimSpace(s.Lines[hi]) != "end" {
+			hi++
+		}
+		first = strings.Join(s.Lines[lo:hi+1], nl) + nl
+	}
 	var err error
 	var pv interface{}
-	func() {
-		defer func() {
-			if x := recover(); x != nil {
-				pv = x
-			}
+	route := s.Route
+	if strings.HasPrefix(route, "pool") {
+		t0 := text
+		if route != "pool" {
+			t0 = first
+		}
+		p, e := engine.NewGenginePool(1, 2, 1, t0, apis)
+		if e == nil && route == "poolupd" {
+			e = p.UpdatePooledRules(text)
+		}
+		if e == nil && route == "poolincr" {
+			e = p.UpdatePooledRulesIncremental(text)
+		}
+		if e != nil {
+			return []N{{"ev": "session", "id": s.ID}, {"ev": "lskip", "why": trunc(e.Error(), 160), "class": s.Class}}
+		}
+		func() {
+			defer func() {
+				if x := recover(); x != nil {
+					pv = x
+				}
+			}()
+			err, _ = p.Execute(map[string]interface{}{}, true)
 		}()
-		err = eng.Execute(rb, true)
-	}()
+	} else {
+		rb := builder.NewRuleBuilder(dc)
+		if route == "incr" {
+			if e := rb.BuildRuleFromString(first); e != nil {
+				return []N{{"ev": "session", "id": s.ID}, {"ev": "lskip", "why": trunc(e.Error(), 160), "class": s.Class}}
+			}
+			if e := rb.BuildRuleWithIncremental(text); e != nil {
+				return []N{{"ev": "session", "id": s.ID}, {"ev": "lskip", "why": trunc(e.Error(), 160), "class": s.Class}}
+			}
+		} else if e := rb.BuildRuleFromString(text); e != nil {
+			return []N{{"ev": "session", "id": s.ID}, {"ev": "lskip", "why": trunc(e.Error(), 160), "class": s.Class}}
+		}
+		eng := engine.NewGengine()
+		func() {
+			defer func() {
+				if x := recover(); x != nil {
+					pv = x
+				}
+			}()
+			err = eng.Execute(rb, true)
+		}()
+	}
 	cited := []int{}
 	msg := ""
 	if err != nil {
